@@ -169,7 +169,17 @@ def rule_entry_only(ctx):
                 if arg_path(s, 0) != 'self.' + fld:
                     continue
                 n += 1
-                ctx.check(pat == 'HashMap::entry', 'K3', 'map-mutation:%s:%s<-%s' % (fld, pat.split('::')[-1], s.body.nid),
+                okm = pat in ('HashMap::entry', 'HashMap::get_mut')
+                if pat == 'HashMap::insert':
+                    # `if let Some(x) = map.get_mut(k) { merge } else { map.insert(k, v) }` deduplicates as entry() does:
+                    # the insert must be reachable only on the absent edge of a lookup in the same map
+                    sb = s.body
+                    for lk, labs in (('HashMap::get_mut', {'None'}), ('HashMap::get', {'None'}), ('HashMap::contains_key', {'false'})):
+                        g = G('absent', call='re:' + lk + '$', labels=labs, pred=lambda c, fld=fld: arg_path(c.site, 0) == 'self.' + fld)
+                        e_, sw_ = g.edges(sb)
+                        if sw_ and e_ and sb.path_avoiding(s.bb, avoid_edges=e_) is None:
+                            okm = True
+                ctx.check(okm, 'K3', 'map-mutation:%s:%s<-%s' % (fld, pat.split('::')[-1], s.body.nid),
                           'self.%s is updated through entry() in %s' % (fld, s.body.nid),
                           'self.%s is mutated with %s in %s: deduplication by key is bypassed' % (fld, pat, s.body.nid), loc=s.loc())
     ctx.floor('K3', 'mutations of the result maps', n, 5)
@@ -179,7 +189,9 @@ def rule_aspa(ctx):
     b = ctx.body('payload::validation::SnapshotBuilder::process_aspa')
     un = b.calls('SmallAsnSet::union')
     ctx.floor('K4', 'union call in process_aspa', len(un), 1)
-    e, sw = G('Occupied', call='HashMap::entry', labels={'Occupied'}).edges(b)
+    from lib.rules import AnyG
+    e, sw = AnyG('customer present', [G('Occupied', call='HashMap::entry', labels={'Occupied'}),
+                                      G('get_mut is Some', call='re:HashMap::get_mut$', labels={'Some'})]).edges(b)
     for u in un:
         ctx.check(b.path_avoiding(u.bb, avoid_edges=e) is None, 'K4', 'process_aspa:union<=Occupied', 'union only for an existing customer',
                   'union not tied to the Occupied arm', loc=u.loc())
@@ -194,9 +206,23 @@ def rule_aspa(ctx):
             d = describe(b.origin_of_operand(s['rv']['o'])) if s['rv']['r'] == 'use' else ''
             if 'union' in d:
                 stored = True
+        elif s['s'] == 'assign' and len(s['lhs']) > 1 and all(x == '*' for x in s['lhs'][1:]) and s['rv']['r'] == 'use':
+            # `*providers = union.collect()` with `providers` bound to the first tuple field of the stored entry
+            d = describe(b.origin_of_operand(s['rv']['o']))
+            tgt = describe(b.origin_of_local(s['lhs'][0]))
+            if 'union' in d and tgt.endswith('.0') and ('get_mut' in tgt or 'entry' in tgt):
+                stored = True
     for t in b.calls('Iterator::collect'):
-        if len(t.term['dest']) > 1 and t.term['dest'][-1] == '.0' and 'union' in arg_desc(t, 0):
+        if 'union' not in arg_desc(t, 0):
+            continue
+        dest = t.term['dest']
+        if len(dest) > 1 and dest[-1] == '.0':
             stored = True
+        elif len(dest) > 1 and all(x == '*' for x in dest[1:]):
+            # `*providers = ..collect()` with `providers` bound to the first tuple field of the stored entry
+            dd = describe(b.origin_of_local(dest[0]))
+            if dd.endswith('.0') and 'get_mut' in dd:
+                stored = True
     ctx.check(stored, 'K4', 'process_aspa:union-stored', 'the union replaces the stored provider set', 'the union result is not stored')
     # ... and it is the WHOLE union: no iterator adaptor (take/filter/skip/...) between union() and collect()
     nwu = 0
